@@ -232,21 +232,6 @@ static int numNibbles(int value) {
   return n;
 }
 
-/// Return the length of an instruction that has a relative label reference.
-/// The length of the encoding depends on the distance to the label, which in
-/// turn depends on the length of the instruction. Calculate the value by
-/// increasing the length until they match. Note that for positive references,
-/// the length of the encoding reduces the range that must be represented, and
-/// for negative references the encoding length adds to the range that must be
-/// represented.
-static int instrLen(int labelOffset, int byteOffset) {
-  int length = 1;
-  while (length < numNibbles(labelOffset - byteOffset - length)) {
-    length++;
-  }
-  return length;
-}
-
 //===---------------------------------------------------------------------===//
 // Directive data types.
 //===---------------------------------------------------------------------===//
@@ -359,17 +344,23 @@ class InstrLabel : public Directive {
   std::string label;
   int labelValue;
   bool relative;
+  // The encoded length in bytes. During layout this only ever grows, which
+  // guarantees that the iteration reaches a fixed point.
+  size_t encodedSize;
 public:
   InstrLabel(Token token, std::string label, bool relative) :
-      Directive(token), label(label), relative(relative) {}
+      Directive(token), label(label), labelValue(0), relative(relative), encodedSize(1) {}
   InstrLabel(Location location, Token token, std::string label, bool relative) :
-      Directive(location, token), label(label), relative(relative) {}
+      Directive(location, token), label(label), labelValue(0), relative(relative), encodedSize(1) {}
   void setLabelValue(int newValue) { labelValue = newValue; }
   bool operandIsLabel() const { return true; }
   bool isRelative() const { return relative; }
-  size_t getSize() const {
-    return (labelValue < 0 && numNibbles(labelValue) == 1) ? 2 : numNibbles(labelValue);
+  /// The number of bytes required to encode an operand value.
+  static size_t operandSize(int value) {
+    return (value < 0 && numNibbles(value) == 1) ? 2 : numNibbles(value);
   }
+  void setSize(size_t value) { encodedSize = value; }
+  size_t getSize() const { return encodedSize; }
   int getValue() const { return labelValue; }
   std::string getLabel() const { return label; }
   std::string toString() const {
@@ -737,63 +728,106 @@ class CodeGen {
     }
   }
 
-  /// Iteratively update label values until the program size does not change.
-  /// Return the final size of the program.
-  void resolveLabels() {
-    int lastSize = -1;
+  /// Assign byte offsets to all directives and values to all labels, using the
+  /// current sizes of the instructions. Return true if anything moved.
+  bool assignOffsets() {
+    bool changed = false;
     int byteOffset = 0;
-    //int count = 0;
+    // Labels seen since the last instruction or data word. They are given the
+    // offset of the directive that follows them, so that a label placed
+    // directly before a data word names that (aligned) word.
+    std::vector<Label*> pendingLabels;
+    auto placeLabels = [&]() {
+      for (auto label : pendingLabels) {
+        changed |= !label->isAssembled() ||
+                   label->getByteOffset() != static_cast<unsigned>(byteOffset);
+        label->setLabelValue(byteOffset);
+        label->setByteOffset(byteOffset);
+      }
+      pendingLabels.clear();
+    };
+    for (auto &directive : program) {
+      if (directive->getToken() == Token::IDENTIFIER ||
+          directive->getToken() == Token::FUNC ||
+          directive->getToken() == Token::PROC) {
+        pendingLabels.push_back(dynamic_cast<Label*>(directive.get()));
+        continue;
+      }
+      if (directive->getToken() == Token::DATA) {
+        // Data must be on 4-byte boundaries.
+        if (byteOffset & 0x3) {
+          byteOffset += 4 - (byteOffset & 0x3);
+        }
+      }
+      placeLabels();
+      changed |= !directive->isAssembled() ||
+                 directive->getByteOffset() != static_cast<unsigned>(byteOffset);
+      directive->setByteOffset(byteOffset);
+      byteOffset += directive->getSize();
+    }
+    placeLabels();
+    return changed;
+  }
+
+  /// Iteratively update label values and the operands of the instructions that
+  /// refer to them until the layout is stable. Instructions start with the
+  /// shortest encoding and are only ever lengthened, so the iteration
+  /// terminates, and it stops only when a complete pass changes nothing, so
+  /// every operand is consistent with the final label addresses.
+  void resolveLabels() {
 #ifdef HEX_VERIF
     size_t verifPass = 0;
 #endif
-    while (lastSize != byteOffset) {
+    bool changed = true;
+    while (changed) {
 #ifdef HEX_VERIF
       if (hexverif::layoutIteration) {
         hexverif::layoutIteration(++verifPass, program.size());
       }
 #endif
-      //std::cout << "Resolving labels iteration " << count++ << "\n";
-      lastSize = byteOffset;
-      byteOffset = 0;
+      changed = assignOffsets();
+      // Update the label operand value of each instruction, accounting for
+      // relative and absolute references.
       for (auto &directive : program) {
-        if (directive->getToken() == Token::DATA) {
-          // Data must be on 4-byte boundaries.
-          if (byteOffset & 0x3) {
-            byteOffset += 4 - (byteOffset & 0x3);
-          }
+        if (!directive->operandIsLabel()) {
+          continue;
         }
-        // Update the label value.
-        if (directive->getToken() == Token::IDENTIFIER ||
-            directive->getToken() == Token::FUNC ||
-            directive->getToken() == Token::PROC) {
-          dynamic_cast<Label*>(directive.get())->setLabelValue(byteOffset);
+        auto instrLabel = dynamic_cast<InstrLabel*>(directive.get());
+        if (labelMap.count(instrLabel->getLabel()) == 0) {
+          throw UnknownLabelError(directive->getLocation(), instrLabel->getLabel());
         }
-        // Update the label operand value of an instruction, accounting for
-        // relative and absolute references.
-        if (directive->operandIsLabel()) {
-          auto instrLabel = dynamic_cast<InstrLabel*>(directive.get());
-          if (labelMap.count(instrLabel->getLabel()) == 0) {
-            throw UnknownLabelError(directive->getLocation(), instrLabel->getLabel());
+        int labelValue = labelMap[instrLabel->getLabel()]->getValue();
+        int byteOffset = directive->getByteOffset();
+        int oldValue = instrLabel->getValue();
+        size_t length = instrLabel->getSize();
+        if (instrLabel->isRelative()) {
+          // The operand is relative to the end of the instruction, so it
+          // depends on the length of the encoding.
+          while (length < InstrLabel::operandSize(labelValue - byteOffset - static_cast<int>(length))) {
+            length++;
           }
-          int labelValue = labelMap[instrLabel->getLabel()]->getValue();
-          if (instrLabel->isRelative()) {
-            int offset = labelValue - byteOffset;
-            //std::cout << "label value " << labelValue
-            //          << " byteOffset " << byteOffset
-            //          << " offset " << offset
-            //          << " instrlen " << instrLen(labelValue, byteOffset) << "\n";
-            if (offset >= 0) {
-              instrLabel->setLabelValue(offset - instrLen(labelValue, byteOffset));
-            } else {
-              instrLabel->setLabelValue(offset - instrLen(labelValue, byteOffset));
-            }
-          } else {
-            assert((labelValue & 0x3) == 0 && "absolute label value is not word aligned");
-            instrLabel->setLabelValue(labelValue >> 2);
-          }
+          instrLabel->setLabelValue(labelValue - byteOffset - static_cast<int>(length));
+        } else {
+          // Alignment is checked once the layout is final.
+          instrLabel->setLabelValue(labelValue >> 2);
+          length = std::max(length, InstrLabel::operandSize(labelValue >> 2));
         }
-        directive->setByteOffset(byteOffset);
-        byteOffset += directive->getSize();
+        if (length != instrLabel->getSize() || oldValue != instrLabel->getValue()) {
+          instrLabel->setSize(length);
+          changed = true;
+        }
+      }
+    }
+    // Absolute references address words.
+    for (auto &directive : program) {
+      if (directive->operandIsLabel()) {
+        auto instrLabel = dynamic_cast<InstrLabel*>(directive.get());
+        if (!instrLabel->isRelative() &&
+            (labelMap[instrLabel->getLabel()]->getValue() & 0x3) != 0) {
+          throw Error(directive->getLocation(),
+                      (boost::format("absolute reference to label %s, which is not word aligned")
+                         % instrLabel->getLabel()).str());
+        }
       }
     }
   }
